@@ -4,6 +4,7 @@ import (
 	"fmt"
 	"os"
 	"path/filepath"
+	"strconv"
 	"strings"
 	"testing"
 	"time"
@@ -19,7 +20,14 @@ import (
 var c07Steps = []string{"taint-eager", "taint-ondemand", "taint-escape", "taint-fieldsens", "backtrace-eager", "backtrace-ondemand",
 	"escape", "reachability", "defers", "maypanic"}
 
+// c07BudgetOverride (seconds of CPU time) is set while replaying a stored case that carries a budget.txt: a recorded
+// budget finding is re-judged under the budget it was recorded with.
+var c07BudgetOverride time.Duration
+
 func c07Budget() (soft, hard time.Duration) {
+	if c07BudgetOverride > 0 {
+		return c07BudgetOverride, c07BudgetOverride
+	}
 	if env.Thorough() {
 		return 60 * time.Second, 300 * time.Second
 	}
@@ -42,12 +50,22 @@ func c07Run(worker *core.Worker, files map[string]string, steps []string, rec *c
 			if rec != nil {
 				rec.Count("steps_over_soft_budget", 1)
 			}
-			res, over, err = worker.All(files, st, hard)
+			if hard > soft {
+				res, over, err = worker.All(files, st, hard)
+			}
 			if died, ok := err.(*core.ErrWorkerDied); ok {
 				return fmt.Sprintf("analysis step %s killed the process: %s", st, oneLine(lastN(died.Stderr, 1500))), "crash-" + st + "-" + crashSite(died.Stderr)
 			}
+			if over && strings.HasPrefix(st, "backtrace") && excluded()["budget:backtrace"] && !replaying {
+				// recorded finding: the backtrace analysis enumerates every backward path (exponentially many traces)
+				if rec != nil {
+					rec.Count("excluded_by_known_finding", 1)
+					rec.Count("backtrace_over_budget_excluded", 1)
+				}
+				continue
+			}
 			if over {
-				return fmt.Sprintf("analysis step %s did not return within %v on a %d-line program (suspected divergence)", st, hard,
+				return fmt.Sprintf("analysis step %s did not return within %v of CPU time on a %d-line program (suspected divergence)", st, hard,
 					strings.Count(afterDecls(files["main.go"]), "\n")), "diverges-" + st
 			}
 			if rec != nil {
@@ -76,7 +94,7 @@ func TestC07(t *testing.T) {
 		"selections), defers (every function) and may-panic are run in a child process under recover and a budget; oracle: every entry "+
 		"point returns; non-trivial = the program contains a wild feature (recursion cycle, recursive type, defer in loop, generic type, "+
 		"goroutine, recover, unsafe, bodyless function); distinct = hash of program")
-	rec.Assumptions = []string{"divergence can only be suspected through a budget (soft budget, then a second run alone under a hard cap)"}
+	rec.Assumptions = []string{"divergence can only be suspected through a budget (CPU time of the analysis process: soft budget, then a second run under a hard cap)"}
 	defer rec.Flush()
 	replayKnown(t, "C07")
 	worker := core.NewWorker(env.Root)
@@ -90,7 +108,7 @@ func TestC07(t *testing.T) {
 		}
 		steps = append(steps, s)
 	}
-	rapidSetup(env.Pick(500, 20000), 7)
+	rapidSetup(env.Pick(500, 5000), 7)
 	rapid.Check(t, func(rt *rapid.T) {
 		prog := gogen.Generate(rt, gogen.WildProfile(off))
 		files := map[string]string{"main.go": prog.Main, "prelude.go": gogen.AnalysedPrelude}
@@ -123,6 +141,14 @@ func init() {
 		if b, err := os.ReadFile(filepath.Join(dir, "steps.txt")); err == nil {
 			steps = strings.Fields(string(b))
 		}
+		if b, err := os.ReadFile(filepath.Join(dir, "budget.txt")); err == nil {
+			if n, err := strconv.Atoi(strings.TrimSpace(string(b))); err == nil && n > 0 {
+				c07BudgetOverride = time.Duration(n) * time.Second
+				defer func() { c07BudgetOverride = 0 }()
+			}
+		}
+		replaying = true
+		defer func() { replaying = false }()
 		worker := core.NewWorker(env.Root)
 		defer worker.Close()
 		for rep := 0; rep < 4; rep++ {
